@@ -14,7 +14,7 @@ import (
 
 func main() {
 	if len(os.Args) > 2 {
-		fmt.Println("Usage: borno [script]")
+		fmt.Fprintln(os.Stderr, "Usage: borno [script]")
 		os.Exit(64)
 	} else if len(os.Args) == 2 {
 		scriptFile := os.Args[1]
@@ -23,7 +23,7 @@ func main() {
 		ext := filepath.Ext(scriptFile) // e.g. ".bn" or ".borno"
 
 		if ext != ".bn" {
-			fmt.Println("Invalid file extension. Please use `.bn` for Borno scripts.")
+			fmt.Fprintln(os.Stderr, "Invalid file extension. Please use `.bn` for Borno scripts.")
 			os.Exit(64)
 		}
 
